@@ -281,6 +281,7 @@ func (fm *FontMap) AddFont(fontFile font.Resource, fileID, familyName string) er
 			fp.Family = font.NormalizeFamily(familyName)
 		}
 
+		fp.userFace = faces[i]
 		addedFonts = append(addedFonts, fp)
 		fm.cache(fp, faces[i])
 	}
@@ -304,6 +305,7 @@ func (fm *FontMap) AddFont(fontFile font.Resource, fileID, familyName string) er
 // of manually loaded fonts. See [ResolveFace] for details about when this matters.
 func (fm *FontMap) AddFace(face *font.Face, location Location, md font.Description) {
 	fp := newFootprintFromFont(face.Font, location, md)
+	fp.userFace = face
 	fm.cache(fp, face)
 
 	fm.appendFootprints(fp)
@@ -608,6 +610,9 @@ func (fm *FontMap) ResolveFaceForLang(lang LangID) *font.Face {
 }
 
 func (fm *FontMap) loadFont(fp Footprint) (*font.Face, error) {
+	if fp.userFace != nil {
+		return fp.userFace, nil
+	}
 	if face, hasCached := fm.faceCache[fp.Location]; hasCached {
 		return face, nil
 	}
